@@ -233,7 +233,10 @@ Print Assumptions fixed_package_scope_boundary.
                                    (specifiers without a valid name: package_resolve_invalid_name_eq_partial);
      pkgs_ok / pkgs_imports_ok     every exports / imports map in the tree is in the domain of the core
                                    theorems (documented exclusions, URL fragment, no refuted shape D1..D10);
-     remap_ok                      the same for a bare target an imports map remaps to.
+     remap_ok                      the same for a bare target an imports map remaps to, which must not be
+                                   a builtin name (require('#x') with "#x":"fs" FAILS in Node 20: the node:
+                                   URL cannot be turned into a path; esbuild answers the builtin; neither a
+                                   resolution nor a rejection by the map, so the property is silent).
    The result depends on the condition list only through membership
    ([spec_depends_on_condition_membership]), which connects esbuild's condition
    sets with Node's ["node"; "require"] ++ user. *)
